@@ -95,6 +95,7 @@ type VC struct {
 	assertSeen map[string]bool
 	assSyms    map[int]map[string]bool
 	assDef     map[int]string
+	oblNames   map[string]int
 	tags       map[string]int
 	trigStack  [][]string
 	ncell      int
@@ -208,6 +209,13 @@ func (vc *VC) oblige(kind, name string, guard, goal Term, pos token.Pos) {
 	}
 	if vc.qdepth > 0 {
 		unsup("obligation inside quantifier")
+	}
+	if vc.oblNames == nil {
+		vc.oblNames = map[string]int{}
+	}
+	vc.oblNames[name]++
+	if n := vc.oblNames[name]; n > 1 {
+		name = fmt.Sprintf("%s #%d", name, n)
 	}
 	o := &Obl{Name: name, Kind: kind, Goal: goal, Guard: guard, NAss: len(vc.asserts)}
 	if pos.IsValid() {
